@@ -1,4 +1,63 @@
-(* C11 — calls keep succeeding across server-initiated connection closes. Statements only. *)
+(* C11 — calls keep succeeding across server-initiated connection closes. Statements only.
+   Model: Conc/ClientConn.v ([run true] = the repaired client, [run false] = the client as pinned); every
+   theorem quantifies over all label sequences, i.e. all schedules of the caller, sender, receiver goroutines,
+   all points at which the peer closes a connection, any number of connections and requests. *)
 From Coq Require Import List Arith Bool NArith.
 From TarsV Require Import Conc.ClientConn Conc.ClientConnProofs.
 Import ListNotations.
+
+(* --- "a connection loss never makes a later healthy connection be treated as closed" ------------------- *)
+(* the closed flag is set exactly when the CURRENT connection is known dead (the client has closed it) *)
+Theorem C11_loss_is_local : forall ls s, run true init ls = Some s ->
+  match cur s with
+  | Some c => closedF s = dead (gens s c) /\ c < ngen s
+  | None => closedF s = true /\ ngen s = 0
+  end.
+Proof. exact ClientConnProofs.closed_flag_is_current. Qed.
+
+(* step form: giving up generation g (receive error, write error, idle close) leaves the flag, the current
+   connection c <> g, its state and its send goroutine untouched — in any state *)
+Theorem C11_loss_is_local_step : forall s l s' g c, step true s l = Some s' -> closes l = Some g -> cur s = Some c -> c <> g ->
+  closedF s' = closedF s /\ cur s' = Some c /\ dead (gens s' c) = dead (gens s c) /\ sp (gens s' c) = sp (gens s c).
+Proof. exact ClientConnProofs.close_is_local. Qed.
+
+(* a connection is replaced only after its loss: every generation but the current one is known dead *)
+Theorem C11_redial_only_after_loss : forall ls s g, run true init ls = Some s -> g < ngen s -> dead (gens s g) = false -> cur s = Some g.
+Proof. exact ClientConnProofs.only_current_alive. Qed.
+
+(* --- "a request is never written to a connection already known to be dead" ---------------------------- *)
+(* for every call issued after the loss is known: once g is known dead, a request enqueued afterwards is never
+   the subject of a write attempt on g *)
+Theorem C11_no_write_to_dead : forall l1 l2 m g s1 s, run true init l1 = Some s1 -> dead (gens s1 g) = true ->
+  run true s1 (LEnq m :: l2) = Some s -> forall b, ~ In (g, m, b) (atts s).
+Proof. exact ClientConnProofs.no_write_after_known_dead. Qed.
+
+(* the literal reading (no write attempt at all while g is known dead, whenever the request was issued) *)
+Definition C11_no_write_to_dead_literal_statement : Prop :=
+  forall ls s g m, run true init ls = Some s -> ~ In (g, m, true) (atts s).
+(* is false of the repaired client, as of any client that does not hold the lock across test and write: the
+   loss can fall between isCurrent and conn.Write (request issued BEFORE the loss) *)
+Theorem C11_no_write_to_dead_literal_refuted : exists s, run true init sched_window = Some s /\ In (0, 0, true) (atts s) /\ late (gens s 0) = [].
+Proof. exact ClientConnProofs.literal_no_write_to_dead_refuted. Qed.
+
+(* --- the pinned client violates all clauses (design-time defect, reproduced by the harness) ------------- *)
+Theorem C11_pinned_refuted : exists s, run false init sched_defect = Some s /\
+  In (0, 1, true) (atts s) /\ In 1 (late (gens s 0)) /\
+  cur s = Some 1 /\ dead (gens s 1) = false /\ peerc (gens s 1) = false /\ closedF s = true /\
+  failQ s = [1] /\ sp (gens s 1) = SExit /\ sp (gens s 0) = SExit /\ got (gens s 1) = [] /\
+  c11_accepts (log s) = false.
+Proof. exact ClientConnProofs.pinned_refuted. Qed.
+
+(* non-vacuity: the repaired client under the corresponding history delivers the request on the new connection *)
+Theorem C11_repaired_example : exists s, run true init sched_repaired = Some s /\
+  atts s = [(0, 0, false); (1, 1, false)] /\ got (gens s 1) = [1] /\ closedF s = false /\ cur s = Some 1 /\
+  sp (gens s 0) = SExit /\ failQ s = [] /\ sendQ s = [] /\ c11_accepts (log s) = true.
+Proof. exact ClientConnProofs.repaired_example. Qed.
+
+Print Assumptions C11_loss_is_local.
+Print Assumptions C11_loss_is_local_step.
+Print Assumptions C11_redial_only_after_loss.
+Print Assumptions C11_no_write_to_dead.
+Print Assumptions C11_no_write_to_dead_literal_refuted.
+Print Assumptions C11_pinned_refuted.
+Print Assumptions C11_repaired_example.
